@@ -127,7 +127,7 @@ def noUnusedFragments (d : Doc) : Prop :=
 def Unproved : List String :=
   ["NoUnusedFragmentsChecker", "PossibleFragmentSpreadsChecker",
    "NoFragmentCyclesChecker", "UniqueVariableNamesChecker", "NoUndefinedVariablesChecker",
-   "NoUnusedVariablesChecker", "KnownDirectivesChecker", "ValuesOfCorrectTypeChecker",
+   "NoUnusedVariablesChecker", "ValuesOfCorrectTypeChecker",
    "VariablesInAllowedPositionChecker", "OverlappingFieldsCanBeMergedChecker"]
 
 end PyGql.Validate.Spec
